@@ -201,6 +201,9 @@ def legal_moves(st: State, rng: random.Random, pol: Policy, werr: bool):
             facing = max(st.bets) > st.bets[i]
             with play.filt(werr):
                 cf = st.can_fold()
+            if cf and not facing and not pol.allow_orphan:
+                # a fold without facing a bet (cash games only warn): keep somebody live in every pot the folder is in
+                cf = any(j != i and st.statuses[j] and -st.payoffs[j] >= -st.payoffs[i] for j in st.player_indices)
             if cf:
                 mv.append((pol.fold * (3 if facing else 1), 'fold', NOARGS))
             mv.append((1 - pol.fold - pol.raise_, 'check_or_call', NOARGS))
